@@ -141,6 +141,10 @@ theorem macroDefContentFilter_step (text : Str) (mt : Match) (e : Expand) :
 
 include hd
 
+omit hs hd in
+@[frame] theorem blockExpand_frame (d : BlockDef) : Pres Frame (blockExpand d) := by
+  frame_start; unfold blockExpand; wp_go
+
 set_option maxHeartbeats 1600000 in
 theorem renderBlockBody_step (d : BlockDef) (mt : Match) (r : Reader) (w : Writer) :
     Pres Step (renderBlockBody rec env d mt r w) := by
